@@ -5283,13 +5283,14 @@ func (a *Agent) TaskDispatch(RequestID uint32, CommandID uint32, Parser *parser.
 										DemonInfo = ParseDemonRegisterRequest(AgentHdr.AgentID, AgentHdr.Data, "")
 										if DemonInfo != nil {
 											DemonInfo.Pivots.Parent = a
+											DemonInfo.Info.MagicValue = AgentHdr.MagicValue
+
+											// persist the agent before the link that refers to it
+											teamserver.AgentAdd(DemonInfo)
 
 											a.Pivots.Links = append(a.Pivots.Links, DemonInfo)
 											teamserver.LinkAdd(a, DemonInfo)
 
-											DemonInfo.Info.MagicValue = AgentHdr.MagicValue
-
-											teamserver.AgentAdd(DemonInfo)
 											teamserver.AgentSendNotify(DemonInfo)
 										}
 									}
